@@ -33,7 +33,10 @@ INLINE = ['*', '**', '***', '_', '__', '`', '``', '` `', '[', ']', '](', ')', ']
           '&amp;', '&#35;', '&#x22;', '&#0;', '&x;', '&', '\\', '\\*', '\\\\', '\\[', '<http://a.b>', '<a@b.c>', '<x:y z>',
           '<b>', '</b>', '<b c="d">', '<!-- c -->', '<?p?>', '$x$', '$$y$$', '[[a|b]]', '[[a]]', '{{m}}', '{{/m}}', '~~', '~',
           '  ', '   ', ' ', ' ', ' ', 'a', 'b', 'foo', 'bar', 'l', '[l]', '[L][]', '[x][l]', '![l]', 'é', '中', ' ', '“',
-          'http://x.y/z?a=b&c=d', '"', "'", '(', ':', '|', '\\|', '#', ' #', '1.', '-', '+', '>', '<', '=']
+          'http://x.y/z?a=b&c=d', '"', "'", '(', ':', '|', '\\|', '#', ' #', '1.', '-', '+', '>', '<', '=',
+          # truncated constructs (a scanner that runs off the end of its string)
+          '[a](<b>', '[a](<b c>', '](<', '[a](b "t"', '![a](<b>', '[a](b "t', '[a](b (t', '[a][', '[a]:', '<a b="c', '<!--', '&#', '&#x', '`a', '~~a', '$a',
+          '[[a|', '{{a', '<a@', '<http:', '\\']
 
 
 def line_doc(t, max_lines=14):
@@ -53,6 +56,8 @@ def line_doc(t, max_lines=14):
             s += t.choice(['  ', '\\', '   ', ' #', ' ##  '])
         lines.append(s)
     text = '\n'.join(lines)
+    if t.chance(50) and text:
+        text = text[:1 + t.below(len(text))]        # cut anywhere: constructs left open at the end of a block
     if not t.chance(40):
         text += '\n'
     return text
